@@ -1292,7 +1292,15 @@ def r21_deleted_column_forgets_every_covering_index(ctx):
     ctx.rule('R-C01.21')
     from ..util import expand_expr
     p = ctx.program
-    f = p.func('db.state', 'DatabaseState.remove_column_indexes')
+    try:
+        f = p.func('db.state', 'DatabaseState.remove_column_indexes')
+    except AnalysisError:
+        # whether the state is told about a dropped column at all is
+        # R-C01.13's question; without the helper there is nothing to ask
+        # here
+        ctx.info('R-C01.21: DatabaseState.remove_column_indexes does not '
+                 'exist; see R-C01.13')
+        return
     g = ctx.cfg(f)
     dels = [n for n in g.nodes if n.kind == 'stmt' and (
         isinstance(n.ast, ast.Delete) or any(
